@@ -326,8 +326,10 @@ func (w *unlockerW) UnlockAccount(ctx context.Context, wallet e2wtypes.Wallet, a
 		w.c.Log.Emit(Ev{"ev": "PreCheckUnlock", "r": rid, "ok": false, "fault": kind})
 		return false, nil
 	}
+	aname := wallet.Name() + "/" + account.Name()
+	w.c.Log.Emit(Ev{"ev": "UnlockEnter", "r": rid, "a": aname})
 	ok, err := w.in.UnlockAccount(ctx, wallet, account)
-	w.c.Log.Emit(Ev{"ev": "PreCheckUnlock", "r": rid, "ok": ok && err == nil})
+	w.c.Log.Emit(Ev{"ev": "PreCheckUnlock", "r": rid, "a": aname, "ok": ok && err == nil})
 	return ok, err
 }
 
